@@ -683,11 +683,24 @@ def check_snapshots(ctx, rep, rule='C09.P', modules=None, floor=3):
                 continue
             n += 1
             others = [b for b in cnode.body if isinstance(b, ast.FunctionDef) and b.name != '__init__']
+            # methods of the class that hand back (a view of) a parameter's current tensor
+            own_takers = {b.name for b in others if any(isinstance(r, ast.Return) and r.value is not None and any(
+                isinstance(x, ast.Attribute) and x.attr == 'tensor' and self_attr(x.value) for x in ast.walk(r.value)) for r in ast.walk(b))}
             for st in ast.walk(init):
                 if not (isinstance(st, ast.Assign) and any(self_attr(t) for t in st.targets)):
                     continue
-                reads_tensor = [x for x in ast.walk(st.value) if (isinstance(x, ast.Attribute) and x.attr == 'tensor')
-                                or (isinstance(x, ast.Call) and isinstance(x.func, ast.Name) and x.func.id in takers)]
+                def value_read(x):
+                    # `.tensor` handed to ones_like / zeros_like / … or asked for its shape / dtype / device gives the layout, not the value
+                    par = getattr(x, '_parent', None)
+                    if isinstance(par, ast.Attribute) and par.attr in ('shape', 'dtype', 'device', 'ndim'):
+                        return False
+                    if isinstance(par, ast.Call) and (dotted_name(par.func) or '').split('.')[-1] in ('ones_like', 'zeros_like', 'empty_like', 'full_like', 'rand_like', 'randn_like') \
+                            and par.args and par.args[0] is x:
+                        return False
+                    return True
+                reads_tensor = [x for x in ast.walk(st.value) if (isinstance(x, ast.Attribute) and x.attr == 'tensor' and value_read(x))
+                                or (isinstance(x, ast.Call) and isinstance(x.func, ast.Name) and x.func.id in takers)
+                                or (isinstance(x, ast.Call) and self_attr(x.func) in own_takers)]
                 if not reads_tensor:
                     continue
                 attr = next(self_attr(t) for t in st.targets if self_attr(t))
